@@ -419,6 +419,9 @@ def run(chk, prog, tier):
     zero_option(chk, prog)
     sampling_step(chk, prog)
     rate_alignment(chk, prog)
+    # the gyroscopes of a given trajectory are QuaternionArray.angular_velocities(dt): its formula and the absence of a motion threshold are C08's rule, shared
+    from props.c08 import angvel
+    angvel(chk, prog)
     chk.require_count("GENERATE.acc", 4)
     canaries(chk, prog)
     return __doc__
